@@ -5,7 +5,7 @@ CONSTANTS
   RecordHist = TRUE
   MaxH = 14
   MaxFeeds = 2
-  FeedNames = {"fa", "fb"}
+  FeedNames = {"fa", "btc-stake"}
   Creators = {"u1", "u2"}
   Aggs = {"max", "min", "avg"}
   Limits = {1, 2, 3}
@@ -20,7 +20,7 @@ CONSTANTS
   TaxNum = 1
   TaxDen = 10
   MaxEdits = 3
-  DTs = {1, 4}
+  DTs = {1, 4, 310}
   EditTFs <- EditTFsDef
   EditCaps = {10, 14}
   MaxCalls = 4
